@@ -3,6 +3,7 @@ package larking
 import (
 	"context"
 	"errors"
+	"fmt"
 	"io"
 	"net"
 
@@ -17,6 +18,7 @@ import (
 const kindWebsocket = "WEBSOCKET"
 
 type streamWS struct {
+	opts       muxOptions
 	ctx        context.Context
 	conn       net.Conn
 	method     *method
@@ -101,6 +103,9 @@ func (s *streamWS) RecvMsg(m interface{}) error {
 				return io.ErrUnexpectedEOF
 			}
 			return err
+		}
+		if max := s.opts.maxReceiveMessageSize; max > 0 && len(b) > max {
+			return fmt.Errorf("websocket: received message larger than max (%d vs. %d)", len(b), max)
 		}
 
 		// TODO: contentType check?
